@@ -41,7 +41,7 @@ PLAN = {
     "C01": {"quick": [native("A", 12, Q), native("B", 4, Q), miri("A", MQ)], "thorough": [native("A", 24, T), native("B", 8, T), native("E", 8, T / 2), miri("A", MT), miri("B", MT // 4)]},
     "C02": {"quick": [native("A", 12, Q), native("C", 4, Q), miri("A", MQ)], "thorough": [native("A", 24, T), native("C", 8, T), native("B", 8, T / 2), miri("A", MT), miri("C", MT // 4)]},
     "C03": {"quick": [native("A", 12, Q), native("D", 4, Q), miri("A", MQ)], "thorough": [native("A", 24, T), native("D", 8, T), miri("A", MT), miri("D", MT // 4)]},
-    "C04": {"quick": [native("B", 12, Q), native("D", 4, Q), miri("B", MQ, count=3)], "thorough": [native("B", 24, T), native("D", 8, T), miri("B", MT, count=3), miri("D", MT // 4)]},
+    "C04": {"quick": [native("B", 10, Q), native("D", 4, Q), native("K", 2, Q), miri("B", MQ, count=3)], "thorough": [native("B", 24, T), native("D", 8, T), miri("B", MT, count=3), miri("D", MT // 4)]},
     "C05": {"quick": [native("C", 12, Q), native("B", 4, Q), miri("C", MQ, count=3)], "thorough": [native("C", 24, T), native("B", 8, T), miri("C", MT, count=3), miri("B", MT // 4)]},
     "C06": {"quick": [native("C", 16, Q), miri("C", MQ, count=3)], "thorough": [native("C", 32, T), miri("C", MT, count=3)]},
     "C07": {"quick": [native("A", 12, Q), native("D", 4, Q), miri("A", MQ)], "thorough": [native("A", 24, T), native("D", 8, T), miri("A", MT), miri("D", MT // 4)]},
@@ -72,7 +72,7 @@ RULES = {
         "C01": "seeded pipeline stress (families A, B, E): policy, capacity 1-16, 1-6 producers x 1-40 actions, 1-4 reducers with a Dispatch/Keep table, middlewares, subscribers, readers, run-time registration, stop racing or after join; non-trivial iff >=2 producer threads interleaved, >=1 Keep answer and a chain of >=2 reducers; " + SCHED,
         "C02": "families A, C, B under all three policies and five entry points; non-trivial iff >=1 cross-thread pair with ret(a)<inv(b) was compared, >=2 entry points and >=2 dispatching threads; " + SCHED,
         "C03": "families A and D; non-trivial iff >=2 producers, >=2 whole-run subscribers and a Keep action between two notifying actions; " + SCHED,
-        "C04": "families B and D (D: late unsubscribes racing stop()); family B: 1-6 producers dispatch until Err while one thread calls stop()/close();stop()/Store::stop() with a backlog built by a gated or slow reducer, then probes every entry point; non-trivial iff >=1 dispatch overlapped the shutdown, backlog >=1 at stop.inv, and both Ok and Err results occurred; " + SCHED,
+        "C04": "families B, D and K (D: late unsubscribes racing stop(); K: stop() called from a task on another store's pool); family B: 1-6 producers dispatch until Err while one thread calls stop()/close();stop()/Store::stop() with a backlog built by a gated or slow reducer, then probes every entry point; non-trivial iff >=1 dispatch overlapped the shutdown, backlog >=1 at stop.inv, and both Ok and Err results occurred; " + SCHED,
         "C05": "family C: gated stepper reducer (exact dispatch/step programs, capacities 1-16, 1-4 producers) and ungated stalls; non-trivial iff a dispatch was open at a gated quiescent point with a full queue and later returned (or, ungated, the queue was observed full); " + SCHED,
         "C06": "family C: burst n>capacity while the reducer is parked in a plug action, 1-4 producers, both drop policies, plus reducer-running variant; non-trivial iff >=1 discard was observed (gated: with the queue full at the quiescent point); " + SCHED,
         "C07": "families A and D; non-trivial iff >=2 producers, >=2 pipeline phases populated and (>=1 run-time registration followed by a dispatch of the registering thread, or an unsubscribe() during the stream); " + SCHED,
